@@ -857,6 +857,23 @@ def poo_hooks():
         if sum(len(l._rewards) for l in objs) != S["rounds"]:
             case.fail("C04", "count-sum", "rewards delivered to learners do not sum to the number of rounds", step=t, algo=name)
         check_grid(ctx, t)
+        # a learner is *run* with the parameters it was created with: for a T-HOO learner the U-values along the path
+        # it has just updated are the published ones for its own (nu_max, rho_i, rounds)
+        if 0 <= served < len(objs) and type(objs[served]).__name__ == "T_HOO":
+            l = objs[served]
+            kw = log["created"][served]["kw"]
+            try:
+                for nd in (getattr(l, "path", None) or [])[1:]:
+                    T_ = nd.visited_times
+                    if T_ > 0 and kw.get("rho") is not None:
+                        want = float(nd.mean_reward) + math.sqrt(2 * math.log(kw.get("rounds", l.rounds)) / T_) + float(kw["nu"]) * float(kw["rho"]) ** nd.get_depth()
+                        if not rel_close(float(nd.u_value), want, 1e-9):
+                            case.fail("C10", "learner-runs-with-other-parameters", f"learner {served} (nu={kw['nu']!r}, rho={kw['rho']!r}): cell ({nd.get_depth()},{nd.get_index()}) "
+                                      f"has U={float(nd.u_value)!r}, with the learner's own parameters it is {want!r}", step=t, algo=name)
+                            break
+            except Exception:
+                pass
+
 
     def at_end(ctx):
         a, case = ctx["algo"], ctx["case"]
